@@ -54,6 +54,10 @@ def an_id(value):
     return 99
 
 
+# annotation ids whose TEXT is an expression that raises when a postponed annotation is evaluated
+ANN_TEXT = {91: 'A1.no_such_attribute', 92: "(1)['x']", 93: 'Name_not_defined_anywhere'}
+
+
 def render_params(ps, annotations=True):
     """abstract parameter list -> text of a def's parameter list"""
     out = []
@@ -73,7 +77,7 @@ def render_params(ps, annotations=True):
             t = '**' + t
         ann = p.get('an', 0)
         if annotations and ann:
-            t += ': A%d' % ann
+            t += ': ' + ANN_TEXT.get(ann, 'A%d' % ann)
         if p['d']:
             dv = p.get('dv', 2) or 2
             dflt = 'None' if dv == 1 else 'D%d' % dv
